@@ -236,9 +236,11 @@ def judge(mod, case: Case, impl: str, d: Dict[str, str], open_ids: set) -> Verdi
         raise CheckBroken(f"driver rejected case ({d['error']}): {case.line[:300]}")
     model, spec = d.get("model", ""), d.get("spec", "")
     trig = [t for t in d.get("trig", "").split(",") if t]
-    eq = getattr(mod, "compare", lambda a, b: a == b)
+    eq0 = getattr(mod, "compare", lambda a, b: a == b)
+    # `model=*`: the model does not predict this case (only used for findings attributed by trigger alone)
+    eq = lambda a, b: b == "*" or eq0(a, b)
     alts = [v for k, v in d.items() if k.startswith("model")]
-    if eq(impl, spec):
+    if eq0(impl, spec):
         if any(eq(impl, m) for m in alts) or trig:
             return Verdict(case, impl, model, spec, trig, "ok")
         return Verdict(case, impl, model, spec, trig, "corr")
